@@ -48,7 +48,7 @@ var panicScope = map[string]func(string) bool{
 // panicFacts renders the `skeletons` part of Generated/C19.lean.
 func panicFacts(repo string) string {
 	var b strings.Builder
-	an, err := c09.AnalyseWith(repo, panicScope, panicAllow)
+	an, err := c09.AnalyseDerived(repo, panicScope, panicAllow, deriveAllow)
 	if err != nil {
 		fmt.Fprintf(&b, "/- panic skeleton extraction failed: %s -/\n", strings.ReplaceAll(err.Error(), "-/", "- /"))
 		b.WriteString("def skeletons : Option (List (String × XmppModel.Skeleton.Stmt)) := none\n")
@@ -80,9 +80,16 @@ func panicFacts(repo string) string {
 		fmt.Fprintf(&b, "  %q%s\n", f.Name, sep)
 	}
 	b.WriteString("]\n")
-	fmt.Fprintf(&b, "/-- partial operations accepted through the reviewed allow list (harness/c19/allow.txt) -/\ndef panicTrustedSites : Nat := %d\n\n", an.AllowUsed)
-	for _, u := range an.AllowUnused {
-		b.WriteString("-- unused allow entry: " + u + "\n")
+	hand, derived := splitAllow(an)
+	fmt.Fprintf(&b, "/-- partial operations accepted through the reviewed allow list (harness/c19/allow.txt) -/\ndef panicTrustedSites : Nat := %d\n", hand)
+	fmt.Fprintf(&b, "/-- partial operations accepted because the range analysis of harness/c19/arith.go derived, on this tree, that the guards on every path keep them in range -/\ndef panicDerivedSites : Nat := %d\n\n", derived)
+	for _, u := range an.AllowDetail {
+		switch {
+		case u.Used > 0 && strings.HasPrefix(u.Why, "derived:"):
+			fmt.Fprintf(&b, "-- derived in range: %s %s %s\n", u.Fn, u.Kind, u.Desc)
+		case u.Used == 0 && !strings.HasPrefix(u.Why, "derived:"):
+			fmt.Fprintf(&b, "-- unused allow entry: %s %s %s\n", u.Fn, u.Kind, u.Desc)
+		}
 	}
 	if p := os.Getenv("C19_DUMP"); p != "" {
 		var d strings.Builder
@@ -103,7 +110,7 @@ func panicFacts(repo string) string {
 
 // panicSkeletons returns (name, dotted code) of every effectful panic skeleton of the tree.
 func panicSkeletons(repo string) (out [][2]string, trusted int, err error) {
-	an, err := c09.AnalyseWith(repo, panicScope, panicAllow)
+	an, err := c09.AnalyseDerived(repo, panicScope, panicAllow, deriveAllow)
 	if err != nil {
 		return nil, 0, err
 	}
@@ -112,5 +119,19 @@ func panicSkeletons(repo string) (out [][2]string, trusted int, err error) {
 			out = append(out, [2]string{f.Name, f.Code})
 		}
 	}
-	return out, an.AllowUsed, nil
+	hand, _ := splitAllow(an)
+	return out, hand, nil
+}
+
+// splitAllow counts the operations accepted through hand-written entries and through
+// entries derived by arith.go.
+func splitAllow(an *c09.ExportedAnalysis) (hand, derived int) {
+	for _, u := range an.AllowDetail {
+		if strings.HasPrefix(u.Why, "derived:") {
+			derived += u.Used
+		} else {
+			hand += u.Used
+		}
+	}
+	return
 }
